@@ -165,9 +165,18 @@ func mConcretise(k int, m *wCase) *b1.Case {
 	if p.O.Rule == "none" {
 		notes = append(notes, ":match none")
 	}
+	// where the option lines stand relative to the notations is irrelevant to the specification (the LAST
+	// :case / :case:off of the comment decides, also for a :skip read earlier): vary it
 	m.nOptLines = len(notes)
+	var ns []string
 	for i := range p.Notes {
-		notes = append(notes, mNoteText(&p.Notes[i]))
+		ns = append(ns, mNoteText(&p.Notes[i]))
+	}
+	if hashMod(string(js), 7, 2) == 0 {
+		notes = append(notes, ns...)
+	} else {
+		m.nOptLines = 0
+		notes = append(ns, notes...)
 	}
 	params := []string{"*" + p.Src}
 	params = append(params, p.Args...)
